@@ -25,7 +25,7 @@ Mk(b, incl, kinds, subs, cstr, comp) ==
      subvals |-> SubV, aval |-> AV, tval |-> TV,
      gsub |-> "none", fsub |-> "none", consts |-> <<>>, symorder |-> <<>>,
      gval |-> Q(61), gsubval |-> Q(67), gconst |-> Q(71), fsubval |-> Q(73), fconst |-> Q(79),
-     qval |-> Q(83), psym |-> "none", symodict |-> FALSE, rebuild |-> FALSE, implicit |-> FALSE]
+     qval |-> Q(83), pfull |-> FALSE, psym |-> "none", symodict |-> FALSE, rebuild |-> FALSE, implicit |-> FALSE]
 
 \* rate constants with two unique keys and explicit defaults; substitution of the first / second key
 CfgUk2(n) == { Mk(b, incl, kinds, subs, FALSE, FALSE) :
@@ -89,6 +89,7 @@ CompDef == [s \in AllSpecies |->
                 [] s = "D" -> (0 :> 1 @@ 3 :> 1)]
 Cat4 == { Inst(Shapes[i], 0) : i \in {3, 8, 11, 15} }
 Cat3 == { Inst(Shapes[i], 0) : i \in {3, 8, 15} }
+Cat2 == { Inst(Shapes[i], 0) : i \in {3, 15} }
 \* argument forms and histories of the builders themselves
 CfgForms(n) == { [cf EXCEPT !.rebuild = rb, !.implicit = im] : cf \in CfgFewBoth(n), rb \in BOOLEAN, im \in BOOLEAN }
                 \cup { [Mk("create_odesys", FALSE, kinds, Uniform(n, "none"), cstr, FALSE)
@@ -101,7 +102,24 @@ CfgAllUk2(n) == CfgAll(n) \cup CfgUk2(n)
 CfgMix(n) == CfgSym(n) \cup CfgFewBoth(n)
 CfgMixQ(n) == { cf \in CfgSym(n) : cf.subs = Uniform(n, "none") /\ cf.kinds # Uniform(n, "ma_num")
                                       /\ cf.symorder \in {subst, Rev(subst)} } \cup CfgFewCstr(n)
+\* complete caller-made parameter tables together with overrides (create_odesys)
+CfgPFull(n) == { [Mk("create_odesys", FALSE, Uniform(n, "str"), subs, cstr, FALSE)
+                    EXCEPT !.psym = ps, !.pfull = TRUE] :
+                   subs \in { FirstOnly(n, "num", "none"), Uniform(n, "num"), FirstOnly(n, "expr", "none"),
+                              FirstOnly(n, "expr", "num") },
+                   cstr \in BOOLEAN, ps \in {"order", "rev"} }
+\* the zero value class: substituted / constants-object values that are exactly 0
+Zeroed(cf) == [cf EXCEPT !.subvals = <<Q(0), Q(43), Q(0)>>, !.gsubval = Q(0), !.fsubval = Q(0)]
+HasSub(cf) == cf.gsub # "none" \/ cf.fsub # "none" \/ \E i \in DOMAIN cf.subs : cf.subs[i] # "none"
+CfgZero(n) == { Zeroed(cf) : cf \in { x \in CfgAll(n) \cup CfgUk2(n) \cup CfgConstQ(n) \cup CfgPFull(n) : HasSub(x) } }
+               \cup { [cf EXCEPT !.gconst = Q(0), !.fconst = Q(0)] : cf \in { x \in CfgConstQ(n) : x.consts # <<>> } }
+               \cup CfgFewBoth(n)
+CfgZeroQ(n) == { cf \in CfgZero(n) : cf.subs \in { Uniform(n, "none"), Uniform(n, "num"), FirstOnly(n, "num", "none") }
+                                      /\ (cf.builder = "create_odesys" \/ ~cf.incl \/ cf.kinds = Uniform(n, "ma_uk"))
+                                      /\ cf.kinds \in { Uniform(n, "ma_uk"), Uniform(n, "str"), Uniform(n, "ma_uk2"),
+                                                        Uniform(n, "ma_pk"), Uniform(n, "ma_num") }
+                                      /\ cf.consts \in { <<>>, <<"g", "feedratio">> } }
 \* quick tier: several families in one run (fewer TLC launches); which family applies depends on the state
-CfgMainQ(n) == IF hist = <<>> THEN CfgAll(n) \cup CfgUk2(n) \cup CfgFormsQ(n) ELSE CfgThree(n)
+CfgMainQ(n) == IF hist = <<>> THEN CfgAll(n) \cup CfgUk2(n) \cup CfgFormsQ(n) \cup CfgPFull(n) ELSE CfgThree(n)
 CfgFeedsQ(n) == CfgMixQ(n) \cup (IF feed.usermap THEN {} ELSE CfgConstQ(n))
 =============================================================================
